@@ -1413,7 +1413,7 @@ func init() {
 	register(&property{
 		Meta: propertyMeta{
 			ID:          "C01",
-			Explanation: "The index that lookup walks is complete and ordered as the property states (not the regexp semantics of a pattern): (C01-ACCUM) path-sensitive evaluation of every insert into the two list-valued tier tables: the stored list is 'existing list ++ [route]', a fresh list only on a path where the comma-ok lookup said absent. (C01-METHODS) every tier insert is keyed by each element of a range over route.methods. (C01-KEYS) writer and reader keys agree per tier (static: method + whole path; first-segment: method + seg(X) with the same canonical form of seg on both sides; residual: method). (C01-TIERS) in match the static lookup dominates everything, a static hit returns at once, the cache sits after static and before dynamic matching, first-segment list before residual list, each scan is a range loop over the looked-up list applying the regexp to the whole path and returning the first candidate that matches with its own parameters. (C01-REPR) representation typestate: values derived from quotePointChar (regex-escaped text and offsets) flow only into the compile call, never into Route.start or the first-segment key, which are compared with raw request text; (C01-SPACE) the same separation for every literal-space sink (Route.path, Route.start, a read Route.spath, the returned table key, the URL template of ToURL) against every escaping/rewriting step. (C01-PREFILTER) the literal-prefix pre-filter in front of each regexp call (in match or in a wrapper such as Route.match) is evaluated abstractly under the two boundary scenarios of a path that begins with the route's start (equal length / longer): in neither may the candidate be given up without the regexp being tried. (C01-ANCHOR) every compiled route pattern is '^' ++ ... ++ '$'. (C01-REGEX) in Route.matchRegex every path on which the verdict can be true has run a Match*/Find* method of the receiver's own compiled pattern on the path parameter; a regex-free shortcut re-implements the grammar and is reported even where it might agree.",
+			Explanation: "The index that lookup walks is complete and ordered as the property states (not the regexp semantics of a pattern): (C01-ACCUM) path-sensitive evaluation of every insert into the two list-valued tier tables: the stored list is 'existing list ++ [route]', a fresh list only on a path where the comma-ok lookup said absent. (C01-METHODS) every tier insert is keyed by each element of a range over route.methods. (C01-KEYS) writer and reader keys agree per tier (static: method + whole path; first-segment: method + seg(X) with the same canonical form of seg on both sides; residual: method). (C01-TIERS) in match the static lookup dominates everything, a static hit returns at once, the cache sits after static and before dynamic matching, first-segment list before residual list, each scan is a range loop over the looked-up list applying the regexp to the whole path and returning the first candidate that matches with its own parameters. (C01-REPR) representation typestate: values derived from quotePointChar (regex-escaped text and offsets) flow only into the compile call, never into Route.start or the first-segment key, which are compared with raw request text; (C01-SPACE) the same separation for every literal-space sink (Route.path, Route.start, a read Route.spath, the returned table key, the URL template of ToURL) against every escaping/rewriting step. (C01-PREFILTER) the literal-prefix pre-filter in front of each regexp call (in match or in a wrapper such as Route.match) is evaluated abstractly under the two boundary scenarios of a path that begins with the route's start (equal length / longer): in neither may the candidate be given up without the regexp being tried. (C01-ANCHOR) every compiled route pattern is '^' ++ ... ++ '$'. (C01-REGEX) in Route.matchRegex every path on which the verdict can be true has run a Match*/Find* method of the receiver's own compiled pattern on the path parameter; a regex-free shortcut re-implements the grammar and is reported even where it might agree. (C01-ORDER) a function that takes a bucket out of regularRoutes / irregularRoutes (lookup or range over a map of that type, also through a receiver or a closure) neither stores into its elements nor passes it to sort.*, slices.Sort*, slices.Reverse or copy as destination.",
 			NotDecided:  []string{"that the generated regexp means what the pattern grammar says ({name}, {name:regex}, [...])", "isFixedPath and the off-by-one arithmetic inside seg (only writer/reader agreement is checked)", "priority among patterns that the grammar makes overlap beyond tier and registration order"},
 			Assumptions: []string{"regexp package semantics", "go/ssa range-loop lowering (#rangeindex) visits elements in ascending order"},
 		},
